@@ -821,7 +821,7 @@ func ruleMemTableGetTable(c *Ctx, r *Reporter) {
 			gotNil := res.RetVals[0].Kind == "int" && res.RetVals[0].I == NilRank
 			gotFound := res.RetVals[1].B
 			okRow := gotFound == row.wantFound && gotNil == row.wantNil
-			if !row.wantNil && !gotNil && !strings.HasSuffix(res.RetPaths[0], ".value") {
+			if !row.wantNil && !gotNil && !strings.HasSuffix(strings.TrimRight(res.RetPaths[0], ")"), ".value") {
 				okRow = false
 			}
 			r.Check(okRow, cons, c.InsPos(res.Ret), fmt.Sprintf("returns (%s, %v)", map[bool]string{true: "nil", false: res.RetPaths[0]}[gotNil], gotFound),
@@ -1429,7 +1429,7 @@ func valueNonNil(v ssa.Value, b *ssa.BasicBlock, d int) bool {
 	case *ssa.Extract:
 		// first result of a constructor (New*) behind its error check: non-nil by convention when the call did not fail
 		if call, ok := x.Tuple.(*ssa.Call); ok && x.Index == 0 {
-			if f := call.Call.StaticCallee(); f != nil && strings.HasPrefix(f.Name(), "New") {
+			if f := call.Call.StaticCallee(); f != nil && (strings.HasPrefix(f.Name(), "New") || nonNilOnSuccess(f, d+1)) {
 				okFact := callOKFactFor(call)
 				if GuardedBy(b, okFact) {
 					return true
@@ -1863,7 +1863,7 @@ func ctorOKOnEdge(e ssa.Value, pred, succ *ssa.BasicBlock) bool {
 	if !ok {
 		return false
 	}
-	if f := call.Call.StaticCallee(); f == nil || !strings.HasPrefix(f.Name(), "New") {
+	if f := call.Call.StaticCallee(); f == nil || !(strings.HasPrefix(f.Name(), "New") || nonNilOnSuccess(f, 1)) {
 		return false
 	}
 	iff, ok := pred.Instrs[len(pred.Instrs)-1].(*ssa.If)
@@ -1877,4 +1877,23 @@ func ctorOKOnEdge(e ssa.Value, pred, succ *ssa.BasicBlock) bool {
 		}
 	}
 	return false
+}
+
+// nonNilOnSuccess: a function of the analysed module returning (T, error) whose every exit with a nil error returns a
+// first result that is non-nil by construction (an open-or-create helper around New*/Reuse* calls).
+func nonNilOnSuccess(f *ssa.Function, d int) bool {
+	if d > 3 || f == nil || len(f.Blocks) == 0 || f.Signature.Results().Len() != 2 || !isErrorType(f.Signature.Results().At(1).Type()) {
+		return false
+	}
+	n := 0
+	for _, ret := range Returns(f) {
+		if ClassifyReturn(ret) == ExitFailure {
+			continue
+		}
+		n++
+		if !valueNonNil(ReturnValue(ret, 0), ret.Block(), d+1) {
+			return false
+		}
+	}
+	return n > 0
 }
